@@ -199,7 +199,7 @@ func runC13(w *core.W) {
 		}
 	}
 	w.ExhaustivePart("every text made of one or two elements of a 37-element pool (quotes, backslash, controls, line breaks, multi-byte, invalid bytes) x 2 quote styles x 4 escape rates")
-	for i, n := 0, w.Pick(50000, 900000); i < n; i++ {
+	for i, n := 0, w.Pick(150000, 1800000); i < n; i++ {
 		one(randText(r, 64), i)
 	}
 	for i, n := 0, w.Pick(2, 8); i < n; i++ {
@@ -221,7 +221,7 @@ func runC13(w *core.W) {
 	r = w.RNG("open")
 	breaks := []string{"\n", "\r", "\r\n", "\u2028", "\u2029", "\u0085"}
 	embeds := []string{"%s", "f(%s", "[%s", "1 + %s", "a ? %s", "f(1, %s", "%s)", "(%s"}
-	for i, n := 0, w.Pick(8000, 120000); i < n; i++ {
+	for i, n := 0, w.Pick(24000, 240000); i < n; i++ {
 		quote := byte("'\""[r.Intn(2)])
 		body := escape(r, randText(r, 12), quote, 20, counts)
 		body = body[:len(body)-1] // drop the closing quote
